@@ -103,13 +103,13 @@ __CPROVER_ensures((!BAD_CT && !BAD_FR && !I_(FN_EXEC,0,3)) ==> (__CPROVER_return
 __CPROVER_ensures((!BAD_CT && !BAD_FR && I_(FN_EXEC,0,3)) ==> (__CPROVER_return_value == 0 && C_(FN_CREATE) == 2 &&
    I_(FN_CREATE,0,0) == TOK(FN_EXEC,0) && I_(FN_CREATE,1,0) == TOK(FN_EXEC,0) + 8 &&
    *solution == (int64_t*)TOK(FN_CREATE,0) && *solution_open == (int64_t*)TOK(FN_CREATE,1)))
-__CPROVER_assigns(*solution, *solution_open, __CPROVER_object_whole(g_cnt), __CPROVER_object_whole(g_seq), __CPROVER_object_whole(g_i), __CPROVER_object_whole(g_d), g_n)
+__CPROVER_assigns(*solution, *solution_open, __CPROVER_object_whole(g_cnt), __CPROVER_object_whole(g_ev), g_n)
 //@end
 void h_BooleanOp64(void) { uint8_t ct, fr; CPaths64 a, b, c; CPaths64 *s, *so; bool pc, rs; LOG_INIT(); BooleanOp64(ct, fr, a, b, c, s, so, pc, rs); VF_CANARY(); }
 //@run name=BooleanOp64 entry=h_BooleanOp64 enforce=BooleanOp64 replace=ConvertCPathsToPathsT,Clipper64_ctor,Clipper_PreserveCollinear,Clipper_ReverseSolution,Clipper_AddSubject,Clipper_AddOpenSubject,Clipper_AddClip,Clipper_Execute,CreateCPathsFromPathsT flags="--bounds-check --pointer-check" timeout=120
 
 #define REPL_BOOL ConvertCPathsToPathsT,Clipper64_ctor,ClipperD_ctor2,PolyTree_ctor,Clipper_PreserveCollinear,Clipper_ReverseSolution,Clipper_AddSubject,Clipper_AddOpenSubject,Clipper_AddClip,Clipper_Execute,Clipper_ExecuteTree,CreateCPathsFromPathsT,CreateCPathsDFromPathsD,CreateCPolyTree64,CreateCPolyTreeD
-#define ASG_LOG __CPROVER_object_whole(g_cnt), __CPROVER_object_whole(g_seq), __CPROVER_object_whole(g_i), __CPROVER_object_whole(g_d), g_n
+#define ASG_LOG __CPROVER_object_whole(g_cnt), __CPROVER_object_whole(g_ev), g_n
 
 //@extract file=CPP/Clipper2Lib/include/clipper2/clipper.export.h func=BooleanOp_PolyTree64 byptr=sol_tree,solution_open cpp=NOUSINGZ
 //@presub /EXTERN_DLL_EXPORT\s*//
